@@ -177,6 +177,16 @@ void h_update_persist(void)
   __CPROVER_assert(!s._persist || (g_put_ctrl_send == ns0 && g_put_ctrl_recv == nr0), "C16.update.control_record_equals_session_numbers");
   VACUITY_PROBE();
 }
+/* the configuration a session has when the application sets nothing: retransmissions keep their numbers (C18), checksums are verified, strict decoding */
+void h_default_parameters(void)
+{
+  struct FIX8_LoginParameters lp;
+  lp._always_seqnum_assign = nondet_bool(); lp._reset_sequence_numbers = nondet_bool(); lp._no_chksum_flag = nondet_bool(); lp._permissive_mode_flag = nondet_bool();       /* storage before construction: anything */
+  lp_default_ctor(&lp);
+  __CPROVER_assert(!lp._always_seqnum_assign, "C18.default_parameters.retransmissions_are_not_renumbered");
+  __CPROVER_assert(!lp._reset_sequence_numbers && !lp._no_chksum_flag && !lp._permissive_mode_flag, "C18.default_parameters.no_reset_checksums_verified_strict_decoding");
+  VACUITY_PROBE();
+}
 void h_recover(void)
 {
   struct FIX8_Session s; struct conn_m c; struct persist_m per;
@@ -245,17 +255,20 @@ UNIT = dict(
     prelude=PRELUDE,
     force_fields={'FIX8::Session': [('_connection', 'FIX8::Connection *'), ('_persist', 'FIX8::Persister *'), ('_plogger', 'FIX8::Logger *'), ('_next_send_seq', 'unsigned int'),
                                     ('_next_receive_seq', 'unsigned int'), ('_loginParameters', 'FIX8::LoginParameters'), ('_sid', 'FIX8::SessionID'), ('_last_sent', 'FIX8::Tickval')],
-                  'FIX8::LoginParameters': [('_always_seqnum_assign', 'bool')]},
+                  'FIX8::LoginParameters': [('_always_seqnum_assign', 'bool'), ('_reset_sequence_numbers', 'bool'), ('_silent_disconnect', 'bool'), ('_no_chksum_flag', 'bool'), ('_permissive_mode_flag', 'bool'), ('_reliable', 'bool'), ('_enforce_compids', 'bool')]},
     functions=[
         dict(q='FIX8::Session::send_process', sig=None, cname='session_send_process'),
         dict(q='FIX8::Session::update_persist_seqnums', sig=None, cname='session_update_persist_seqnums'),
         dict(q='FIX8::Session::recover_seqnums', sig=None, cname='session_recover_seqnums'),
+        dict(q='FIX8::LoginParameters::LoginParameters', sig='void () noexcept(false)', cname='lp_default_ctor', self_type='FIX8::LoginParameters *',
+             select_inits=['_reset_sequence_numbers', '_always_seqnum_assign', '_silent_disconnect', '_no_chksum_flag', '_permissive_mode_flag', '_reliable', '_enforce_compids'], optional_inits=['_always_seqnum_assign']),
     ],
     postlude=POST,
     proofs=[
         dict(name='send_numbering', harness='h_send_c16', properties=['C16'], solvers=['cadical', 'z3'], timeout=dict(quick=600, thorough=1800), floor=10, level='proved-modular', object_bits=10),
         dict(name='update_persist', harness='h_update_persist', properties=['C16'], solvers=['cadical', 'z3'], timeout=dict(quick=300, thorough=900), floor=4, level='proved-modular', object_bits=10),
         dict(name='recover', harness='h_recover', properties=['C16'], solvers=['cadical', 'z3'], timeout=dict(quick=300, thorough=900), floor=4, level='proved-modular', object_bits=10),
+        dict(name='default_parameters', harness='h_default_parameters', properties=['C18'], solvers=['cadical', 'z3'], timeout=dict(quick=120, thorough=300), floor=2, level='proved-modular', object_bits=10),
         dict(name='send_store', harness='h_send_c17', properties=['C17'], solvers=['cadical', 'z3'], timeout=dict(quick=600, thorough=1800), floor=6, level='proved-modular', object_bits=10),
         dict(name='send_buffer', harness='h_send_c03', properties=['C03'], solvers=['cadical', 'z3'], timeout=dict(quick=600, thorough=1800), floor=1, level='proved-modular', object_bits=10),
         dict(name='send_buffer_small', harness='h_send_c03s', properties=['C03'], solvers=['cadical', 'z3'], timeout=dict(quick=600, thorough=1800), floor=1, level='proved-modular', object_bits=10),
